@@ -50,7 +50,7 @@ CLAIMS = {
  "C05": ("TLC model checking of LiqSum/TickSums/TickInit on the toy instance + the same invariants evaluated by TLC on the projected state after every "
          "recorded instruction (both tick-array encodings, Pinocchio handlers)", "as C01", "4 C05"),
  "C06": ("TLC model checking of StepsOK/SplitExact action properties on the toy instance + trace validation: per-step fee formula, protocol cut, growth "
-         "fold, trader/vault deltas, Traded event, protocol-fee collection of every recorded swap", "as C01; needs the swap-step hook", "4 C06"),
+         "fold, trader/vault deltas, Traded event, protocol-fee collection of every recorded swap; two-hop swaps: each leg booked on its own pool", "as C01; needs the swap-step hook", "4 C06"),
  "C07": ("TLC model checking of FeeUpper/FeeLower (ghost exact-share ledgers, accumulators started just below wrap-around) on the toy instance + trace validation: "
          "the spec accumulates per recorded swap step the exact pro-rata share of every position whose range contains the segment tick (2^128-scaled interval) and checks "
          "credited fees <= share and >= share - bounded rounding after every instruction", "the lower bound is 'bounded rounding' (one unit per in-range step / credit): a change that loses less is not reported", "4 C07"),
